@@ -249,3 +249,36 @@ def name(ctx, clen, blen):
     cstr = SymSeq(comm.items, "str") if isinstance(comm, SymSeq) else comm.decode()
     ext = clen >= 15 and bool(sym.SymBool(SymSeq.of(bname)._match_at(0, SymSeq.of(cstr).items)))
     ctx.prove(T(got, bname if ext else cstr), "name-extension")
+
+
+NAME_WITNESSES = [  # (kernel name bytes, cmdline[0]): names ending in bytes that are not valid UTF-8, 15-byte truncation, near-miss prefixes
+    (b"abcdefghijklmn\xe9", "/opt/abcdefghijklmnop-helper"), (b"backup-runner\xff\xfe", "/usr/bin/backup-runner-daily"), (b"abcdefghijklmn\xe9", "/opt/abcdefghijklmn\udce9-more"),
+    (b"gnome-keyring-d", "/usr/bin/gnome-keyring-daemon"), (b"gnome-keyring-d", "/usr/bin/gnome-keyring"), (b"fifteen-chars-x", "relative-fifteen-chars-x-long"), (b"short", "/usr/bin/shorter"),
+]
+
+
+@harness("C12.name_witness", quick=[dict(i=i) for i in range(len(NAME_WITNESSES))])
+def name_witness(ctx, i):
+    """name() on concrete witnesses that the symbolic (ASCII) harness cannot produce: kernel names with non-UTF-8 bytes (decoded with
+    surrogateescape), checked against the statement's rule; asked twice, with the argument vector replaced in between (a re-exec or a
+    rewritten title keeps the 15-byte kernel name): the second answer follows the new argument vector"""
+    import os as _os
+
+    k = base(ctx)
+    comm, argv0 = NAME_WITNESSES[i]
+    k.files["/proc/77/stat"] = simk.stat_record(k, 77, comm, b"S", {4: 1, 22: 5000})
+    k.files["/proc/77/cmdline"] = (argv0 + "\x00-v\x00").encode("utf8", "surrogateescape")
+    other = "/usr/libexec/" + comm.decode("utf8", "surrogateescape") + "-other-helper"
+
+    def want(a0):
+        cs = comm.decode("utf8", "surrogateescape")
+        bn = _os.path.basename(a0)
+        return bn if len(cs) >= 15 and bn.startswith(cs) else cs
+
+    with k.installed():
+        p = psutil.Process(77)
+        first = ctx.guard("name-no-exception", p.name)
+        k.files["/proc/77/cmdline"] = (other + "\x00").encode("utf8", "surrogateescape")
+        second = ctx.guard("name-no-exception", p.name)
+    ctx.prove(first == want(argv0), "name-extension", detail=f"{comm!r} + {argv0!r}: {first!r}, expected {want(argv0)!r}")
+    ctx.prove(second == want(other), "name-follows-cmdline", detail=f"after the argument vector changed to {other!r}: {second!r}, expected {want(other)!r}")
